@@ -174,9 +174,10 @@ func (d *c15Drv) get(path string) (int, string) {
 
 func (d *c15Drv) traffic(th int, clear bool) {
 	op := d.h.Begin(th, "traffic", clear)
-	p := "/traffic"
+	// spelling of the flag by thread number (see histories_test.go)
+	p := "/traffic" + []string{"", "?clear=0", "?clear=false"}[th%3]
 	if clear {
-		p += "?clear=1"
+		p = "/traffic" + []string{"?clear=1", "?clear=true"}[th%2]
 	}
 	_, body := d.get(p)
 	d.h.End(op, body)
